@@ -106,11 +106,11 @@ def H(n, m, j, i):
 _REACH = {}
 
 
-def reach(N, n):
-    """R[j] = list of the target entries i with C(n,i)*C(N-n,j-i) > 0"""
-    key = (N, n)
+def reach(N, n, j):
+    """the target entries i with C(n,i)*C(N-n,j-i) > 0, for source entry j"""
+    key = (N, n, j)
     if key not in _REACH:
-        _REACH[key] = [[i for i in range(n + 1) if j - i >= 0 and comb(n, i) * comb(N - n, j - i) > 0] for j in range(N + 1)]
+        _REACH[key] = [i for i in range(n + 1) if j - i >= 0 and comb(n, i) * comb(N - n, j - i) > 0]
     return _REACH[key]
 
 
@@ -123,7 +123,7 @@ def _prod(xs):
 
 def spread_axis(mask, shape, ax, n):
     """row-major flat mask of `shape`, axis ax projected to size n: (flat mask, shape) demanded by the theorem"""
-    L = shape[ax]; R = reach(L - 1, n)
+    L = shape[ax]
     inner = _prod(shape[ax + 1:]); outer = _prod(shape[:ax])
     out = [False] * (outer * (n + 1) * inner)
     for o in range(outer):
@@ -132,7 +132,7 @@ def spread_axis(mask, shape, ax, n):
             ks = [k for k in range(inner) if mask[base + k]]
             if not ks:
                 continue
-            for i in R[j]:
+            for i in reach(L - 1, n, j):
                 tb = (o * (n + 1) + i) * inner
                 for k in ks:
                     out[tb + k] = True
@@ -173,6 +173,80 @@ def reference_mask(mask, shape, ns, folded):
     return mk
 
 
+_AXIS_INTS = {}
+
+
+def _axis_ints(N, n):
+    """integer form of the weights of one axis: H(N,n,j,i) = num(i,j) * cof[j] / P with P = lcm_j C(N,j)"""
+    if (N, n) not in _AXIS_INTS:
+        P = math.lcm(*[comb(N, j) for j in range(N + 1)])
+        _AXIS_INTS[(N, n)] = (P, [P // comb(N, j) for j in range(N + 1)])
+    return _AXIS_INTS[(N, n)]
+
+
+def exact_entries(data, shape, ns, out, ax, tol=TOL):
+    """unfolded projection of `data` (row-major floats, shape) to ns against the exact hypergeometric expectation
+    sum_j H(N,n,j,i) x_j per axis, in integer arithmetic (floats are dyadic rationals), on the entries of the large axis `ax`
+    that sit in the tails, at the window edges of every non-negligible source entry, and a few in the bulk; every index of
+    the other (small) axes.  tol (1e-11) relative per unmasked entry (data non-negative), exact zero where the expectation is 0.
+    returns None or a description of the first disagreement"""
+    d = len(shape)
+    if 'error' in out:
+        return 'raised ' + out['error']
+    if out['shape'] != [m + 1 for m in ns]:
+        return 'shape %r' % (out['shape'],)
+    rat = [float(x).as_integer_ratio() for x in data]
+    E = max(den for _, den in rat)
+    X = [num * (E // den) for num, den in rat]          # data = X / E
+    sh = list(shape); scale = E
+    # the small axes first, in full
+    for a in range(d):
+        if a == ax or ns[a] == sh[a] - 1:
+            continue
+        N, n = sh[a] - 1, ns[a]
+        P, cof = _axis_ints(N, n)
+        inner = _prod(sh[a + 1:]); outer = _prod(sh[:a])
+        Y = [0] * (outer * (n + 1) * inner)
+        for o in range(outer):
+            for j in range(N + 1):
+                for i in range(max(0, j - (N - n)), min(j, n) + 1):
+                    w = comb(n, i) * comb(N - n, j - i) * cof[j]
+                    for k in range(inner):
+                        Y[(o * (n + 1) + i) * inner + k] += w * X[(o * (N + 1) + j) * inner + k]
+        X, scale = Y, scale * P
+        sh[a] = n + 1
+    N, n = sh[ax] - 1, ns[ax]
+    inner = _prod(sh[ax + 1:]); outer = _prod(sh[:ax])
+    if n == N:
+        P, cof = 1, [1] * (N + 1)
+    else:
+        P, cof = _axis_ints(N, n)
+    scale *= P
+    want = set(range(0, min(n, 3) + 1)) | set(range(max(0, n - 3), n + 1)) | {n // 2, n // 3, (2 * n) // 3, n // 4}
+    big = sorted(range(N + 1), key=lambda j: -max(X[(o * (N + 1) + j) * inner + k] for o in range(outer) for k in range(inner)))[:2]
+    for j in big + [N // 2, N // 4]:
+        lo, hi = max(0, n - (N - j)), min(j, n)
+        want |= {t for t in (lo - 1, lo, lo + 1, hi - 1, hi, hi + 1) if 0 <= t <= n}
+    tn, td = tol.numerator, tol.denominator
+    for i in sorted(want):
+        if n == N:
+            ws = [(i, 1)]
+        else:
+            ci = comb(n, i)
+            ws = [(j, ci * comb(N - n, j - i) * cof[j]) for j in range(i, min(N, i + N - n) + 1)]
+        for o in range(outer):
+            for k in range(inner):
+                flat = (o * (n + 1) + i) * inner + k
+                if out['mask'][flat]:
+                    continue
+                Z = sum(w * X[(o * (N + 1) + j) * inner + k] for j, w in ws)       # exact value = Z / scale
+                a_, b_ = float(out['data'][flat]).as_integer_ratio()
+                if abs(a_ * scale - Z * b_) * td > tn * Z * b_:
+                    return 'entry %d of the large axis (flat index %d) is %r, the exact hypergeometric expectation is %r' % (
+                        i, flat, out['data'][flat], float(Fraction(Z, scale)) if Z == 0 or Fraction(Z, scale) > Fraction(1, 10 ** 300) else str(Fraction(Z, scale)))
+    return None
+
+
 def nested(flat, shape, fmt):
     """Coq nested list literal of a row-major flat list"""
     if not shape:
@@ -187,7 +261,7 @@ def rel_close(a, b_, tol=FTOL):
     return abs(a - b_) <= tol * max(abs(a), abs(b_))
 
 
-def same_result(r1, r2):
+def same_result(r1, r2, tol=FTOL):
     """two dumped spectra: shapes and masks identical, data agree where unmasked. returns None or a description"""
     if 'error' in r1 or 'error' in r2:
         return 'error: %s / %s' % (r1.get('error'), r2.get('error'))
@@ -199,7 +273,7 @@ def same_result(r1, r2):
     if r1['folded'] != r2['folded']:
         return 'folded flags differ'
     for k, (x, y, mk) in enumerate(zip(r1['data'], r2['data'], r1['mask'])):
-        if not mk and not rel_close(x, y):
+        if not mk and not rel_close(x, y, tol):
             return 'data differ at flat index %d: %r vs %r' % (k, x, y)
     return None
 
@@ -328,7 +402,8 @@ def gen_spectra(ctx):
     return cases
 
 
-LARGE_SHARD = 6
+LARGE_SHARD = 4
+LARGE_MASK_SHARD = 30
 LARGE_MASKS = ('none', 'mid', 'quarter', 'few', 'dense')
 LARGE_DATA = ('sparse', 'spike', 'range', 'counts')
 
@@ -379,7 +454,8 @@ def large_case(rng, cid, N, layout, folded, mkind, dkind, n, corners, sweep_pos=
     p0 = N // 2 if mkind != 'mid' else N // 2 + 2
     if dkind == 'sparse':
         data = [0.0] * size
-        data[flat(p0, rng.randrange(s + 1))] = math.ldexp(odd(), rng.choice([-760, -760, 0, 600]))
+        # (weight * value must stay a normal float64: weights go down to 1e-59 at N = 200, 4e-300 at N = 1000)
+        data[flat(p0, rng.randrange(s + 1))] = math.ldexp(odd(), rng.choice([-760, -760, 0, 600] if N <= 200 else [0, 0, 300, 600]))
     elif dkind == 'spike':
         data = [math.ldexp(odd(), -650) for _ in range(size)]
         data[flat(p0, rng.randrange(s + 1))] = math.ldexp(odd(), 650)
@@ -429,6 +505,15 @@ def gen_large(ctx, first_id, widened):
                         dkind = LARGE_DATA[(mi + ti) % 4]
                         corners = False if (layout == '1d' and mkind in ('none', 'mid', 'quarter')) else (cid % 2 == 1)
                         cases.append(large_case(rng, cid, N, layout, folded, mkind, dkind, n, corners)); cid += 1
+    # sample size 1000 (weights down to 4e-300, still normal float64 numbers): anything that decides 'contributes' / 'negligible' by
+    # a tiny threshold.  1-D, Python-side predicates only (exact mask, exact rational entries, two-stage, fold identities)
+    for folded in (False, True):
+        for mi, mkind in enumerate(('none', 'mid', 'quarter')):
+            for ti, n in enumerate((500, 250, 3)):
+                dkind = ('sparse', 'spike', 'counts')[(mi + ti) % 3]
+                c = large_case(rng, cid, 1000, '1d', folded, mkind, dkind, n, False)
+                c['nocoq'] = True
+                cases.append(c); cid += 1
     if widened:
         # one masked entry at EVERY position of the large axis (and 1-D / 2-D, folded / unfolded alternating), sizes up to 400
         for N in [56, 57, 58, 60, 64, 72, 80, 100, 120, 160, 200, 300, 400]:
@@ -473,14 +558,14 @@ def check_bigweights(ctx, triples, res):
                 e = Fraction(num, comb(n, j))
                 if e < Fraction(1, 10 ** 305):
                     continue                    # below the normal float64 range: underflow is legitimate
-                if abs(Fraction(w[i]) - e) > Fraction(1, 10 ** 9) * e:
+                if abs(Fraction(w[i]) - e) > Fraction(1, 10 ** 10) * e:
                     bad = 'entry %d is %r, the exact weight is %r' % (i, w[i], float(e)); break
         if bad:
             nbad += 1
             if nbad <= 3:
-                ctx.violation('_cached_projection(%d, %d, %d) is not the hypergeometric weight vector (positive exactly on the window, 1e-9 relative): %s' % (m, n, j, bad),
+                ctx.violation('_cached_projection(%d, %d, %d) is not the hypergeometric weight vector (positive exactly on the window, 1e-10 relative): %s' % (m, n, j, bad),
                               data={'kind': 'bigweights', 'triple': [m, n, j], 'impl': w})
-    ctx.obligation('predicate: _cached_projection at proj_from 400 / 1000: positive exactly where C(m,i)C(n-m,j-i) > 0, values within 1e-9 (%d vectors)' % len(triples),
+    ctx.obligation('predicate: _cached_projection at proj_from 400 / 1000: positive exactly where C(m,i)C(n-m,j-i) > 0, values within 1e-10 (%d vectors)' % len(triples),
                    nbad == 0, 'predicate')
 
 
@@ -567,7 +652,7 @@ def expected_mask(c, inp):
 
 def check_spectra(ctx, cases, res):
     byid = {r['id']: r for r in res}
-    exprs_by_d = {1: [], 2: [], 3: [], 4: [], 'L1': [], 'L2': []}
+    exprs_by_d = {1: [], 2: [], 3: [], 4: [], 'M1': [], 'M2': [], 'L1': [], 'L2': []}
     meta = {}
     nv = {'n': 0}
 
@@ -619,23 +704,26 @@ def check_spectra(ctx, cases, res):
                 viol('projected spectrum lost pop_ids / extrap_x', c, {'impl': out})
             tin = sum(Fraction(x) for x in inp['data']); tout = sum(Fraction(x) for x in out['data'])
             # (data are non-negative: the large-axis cases, whose totals range over 1e-230 .. 1e200, are held to the relative bound)
-            if abs(tin - tout) > TOL * (abs(tin) if lg else max(abs(tin), 1)):
+            if abs(tin - tout) > (Fraction(1, 10 ** 10) if (lg and lg['N'] > 400) else TOL) * (abs(tin) if lg else max(abs(tin), 1)):
                 viol('projection does not conserve the total: %r before, %r after (shape %r -> ns %r, folded=%s)' % (
                     float(tin), float(tout), c['shape'], c['ns'], c['folded']), c, {'impl': out})
-            why = same_result(out, r['two_stage'])
+            # (sample sizes above 400: the log-gamma weights carry 2e-12 relative error (observed; 1e-11 worst case), so two float
+            #  evaluations / the exact value are compared at 1e-10 there; everything else at 1e-11)
+            ftol, qtol = (1e-10, Fraction(1, 10 ** 10)) if (lg and lg['N'] > 400) else (FTOL, TOL)
+            why = same_result(out, r['two_stage'], ftol)
             if why:
                 viol('two-stage projection %r -> %r -> %r differs from one-stage: %s' % (
                     [s - 1 for s in c['shape']], c['mid'], c['ns'], why), c, {'one': out, 'two': r['two_stage']})
-            why = same_result(out, r['in_order'])
+            why = same_result(out, r['in_order'], ftol)
             if why:
                 viol('projecting the axes one at a time in order %r differs from project(): %s' % (c['perm'], why), c,
                      {'project': out, 'in_order': r['in_order']})
             if c['folded']:
-                why = same_result(out, r['via_unfold'])
+                why = same_result(out, r['via_unfold'], ftol)
                 if why:
                     viol('folded projection differs from fold(project(unfold)): %s' % why, c, {'project': out, 'via_unfold': r['via_unfold']})
             else:
-                why = same_result(r['fold_project'], r['project_fold'])
+                why = same_result(r['fold_project'], r['project_fold'], ftol)
                 if why:
                     viol('fold(project(fs)) differs from project(fold(fs)): %s' % why, c,
                          {'fold_project': r['fold_project'], 'project_fold': r['project_fold']})
@@ -646,6 +734,26 @@ def check_spectra(ctx, cases, res):
                         viol('mask does not spread to exactly the entries a masked source entry contributes to: flat target index %d is %s, '
                              'support of the exact weights says %s (shape %r -> ns %r)' % (k, out['mask'][k], exp[k], c['shape'], c['ns']), c,
                              {'impl_mask': out['mask'], 'expected_mask': exp})
+            if lg:
+                # data of the large cases against exact rationals (unfolded projection; a folded spectrum through the
+                # unfolded spectrum project() works on -- folded out == fold(that projection) is the via_unfold identity above)
+                if inp['folded']:
+                    src, prj = r.get('unfolded', {'error': 'missing'}), r.get('unfold_project', {'error': 'missing'})
+                else:
+                    src, prj = inp, out
+                why = 'unfold() raised ' + src['error'] if 'error' in src else exact_entries(src['data'], src['shape'], c['ns'], prj, lg['axis'], qtol)
+                if why:
+                    viol('projection is not the hypergeometric expectation: %s sample sizes %r -> %r (data kind %s): %s' % (
+                        'unfold() of a folded spectrum,' if inp['folded'] else 'unfolded spectrum,', [s_ - 1 for s_ in src.get('shape', inp['shape'])],
+                        c['ns'], lg['data_kind'], why), c, {'impl': prj})
+                if inp['folded'] and 'error' not in src and 'error' not in prj:
+                    expu = reference_mask(src['mask'], src['shape'], c['ns'], False)
+                    if expu != prj['mask']:
+                        bad = [i for i, (x, y) in enumerate(zip(expu, prj['mask'])) if x != y]
+                        viol('mask does not spread to exactly the entries a masked source entry contributes to: unfold().project(%r) of a folded spectrum of '
+                             'sample sizes %r leaves %d target entries wrong, first flat target index %d' % (
+                                 c['ns'], [s_ - 1 for s_ in src['shape']], len(bad), bad[0]), c,
+                             {'impl_mask': prj['mask'], 'expected_mask': expu, 'wrong_flat_indices': bad[:40]})
             # mask spreading (C08_mask_spreads_exactly, per shrinking axis, integer binomials only; folded: through the
             # fold/unfold mask algebra), EXACT equality -- one-stage, two-stage and one axis at a time
             exp = reference_mask(inp['mask'], inp['shape'], c['ns'], inp['folded'])
@@ -663,9 +771,23 @@ def check_spectra(ctx, cases, res):
                      {'impl_mask': got['mask'], 'expected_mask': exp, 'wrong_flat_indices': bad[:40]})
                 break
         # ---- correspondence case (model sees the actual input the implementation saw)
-        if c.get('nocoq'):
-            continue
         n = len(meta)
+        meta[n] = c
+        if lg:
+            # large axis: the mask against the model through the mask-only evaluation (theorem
+            # C08_mask_only_evaluation_is_model_mask: it IS the mask of [project]); the exact-Q data model recomputes three
+            # binomials per (target, source) pair on binary integers and is affordable only for the smallest of these sizes
+            # (the data of all large cases are compared with exact rationals in exact_entries)
+            if raised:
+                oshape, omk = '[]', '[]'
+            else:
+                oshape, omk = natl(out['shape']), bl(out['mask'])
+            exprs_by_d['M%d' % d].append((n, '(Build_mcase %d %s %s %s %s %s %s)' % (
+                d, natl(c['ns']), b(inp['folded']), nested(inp['mask'], inp['shape'], b), b(raised), oshape, omk)))
+            if not (lg['N'] <= 64 and d == 1 and lg['data_kind'] == 'counts' and not c.get('nocoq')):
+                continue
+            n = len(meta)
+            meta[n] = c
         if raised:
             oshape, ox, omk = '[]', '[]', '[]'
         else:
@@ -674,7 +796,6 @@ def check_spectra(ctx, cases, res):
         exprs_by_d[('L%d' % d) if lg else d].append((n, '(Build_scase %d %s %s %s %s %s %s %s %s)' % (
             d, natl(c['ns']), b(inp['folded']), nested(xin, inp['shape'], q), nested(inp['mask'], inp['shape'], b),
             b(raised), oshape, ox, omk)))
-        meta[n] = c
     header = ('From Coq Require Import ZArith QArith List.\nFrom Dadi Require Import Base.Num Base.NumQ Model.Projection '
               'Model.ProjectionCheck.\nImport ListNotations.\nOpen Scope Q_scope.')
     nbad = 0
@@ -682,20 +803,27 @@ def check_spectra(ctx, cases, res):
         if not exprs:
             continue
         d = dk if isinstance(dk, int) else int(dk[1:])
-        results = ctx.coq_cases('s%s' % dk, header + '\nDefinition chk := scheck %d %s.' % (d, q(TOL)), exprs,
-                                'chk', 'tol 1e-11 relative per unmasked entry; masks, shapes and refusals exactly',
-                                shard=ctx.pick(12, 40) if isinstance(dk, int) else LARGE_SHARD, kind='project')
+        maskonly = isinstance(dk, str) and dk[0] == 'M'
+        if maskonly:
+            results = ctx.coq_cases('s%s' % dk, header + '\nDefinition chk := mcheck %d.' % d, exprs, 'chk',
+                                    'masks, shapes and refusals exactly', shard=LARGE_MASK_SHARD, kind='project_mask', record_err=False)
+        else:
+            results = ctx.coq_cases('s%s' % dk, header + '\nDefinition chk := scheck %d %s.' % (d, q(TOL)), exprs,
+                                    'chk', 'tol 1e-11 relative per unmasked entry; masks, shapes and refusals exactly',
+                                    shard=ctx.pick(12, 40) if isinstance(dk, int) else LARGE_SHARD, kind='project')
         for n, _ in exprs:
             c = meta[n]
             rr = results.get(n)
             ok = rr is not None and rr[0]
-            ctx.obligation('corr Spectrum.project case %d (dim %d, shape %r -> %r, folded=%s)' % (c['id'], d, c['shape'], c['ns'], c['folded']),
-                           ok, 'correspondence', '' if ok else 'model != impl %r' % (rr,))
+            ctx.obligation('corr Spectrum.project%s case %d (dim %d, shape %r -> %r, folded=%s)' % (
+                ' [mask, large axis]' if maskonly else '', c['id'], d, c['shape'], c['ns'], c['folded']),
+                ok, 'correspondence', '' if ok else 'model != impl %r' % (rr,))
             if not ok:
                 nbad += 1
                 if nbad <= 3:
-                    ctx.violation('Spectrum.project(%r) on a %s spectrum of shape %r is not the hypergeometric expectation / mask / refusal the model gives' % (
-                        c['ns'], 'folded' if c['folded'] else 'unfolded', c['shape']),
+                    ctx.violation('Spectrum.project(%r) on a %s spectrum of shape %r is not the %s the model gives' % (
+                        c['ns'], 'folded' if c['folded'] else 'unfolded', c['shape'],
+                        'mask / refusal' if maskonly else 'hypergeometric expectation / mask / refusal'),
                         data={'kind': 'spectrum', 'case': c, 'impl': byid[c['id']]['out'], 'coq': rr})
 
 
